@@ -261,6 +261,8 @@ def rule_body_text(ctx, file, s):
     s = sub("R-assert", r"(?<![\w!])(?:debug_)?assert!\(([^;,\"]+?)\);", r"runtime_assert(\1);", s)
     s = sub("R-split", r"(\w+)\.split\('(.)'\)\.collect::<Vec<_>>\(\)", r"str_split_char(\1, '\2')", s)
     s = sub("R-split", r"(let (?:mut )?\w+\s*:\s*Vec<&str>\s*=\s*)(\w+)\.split\('(.)'\)\.collect\(\)", r"\1str_split_char(\2, '\3')", s)
+    # R-lebytes: `x.to_le_bytes()` -> shim wrapper with the byte-wise specification (the std signature cannot be given an assume_specification)
+    s = sub("R-lebytes", r"\b(\w+)\.to_le_bytes\(\)", r"u64_to_le_bytes(\1)", s)
     s = sub("R-add", r"\((\w+KeySeparator::default\(\)) \+ (&?\w+)\)", r"(std::ops::Add::add(\1, \2))", s)
     # R-constclosure: `|_| Enum::Variant` (argument ignored, unit-variant body) gets the ensures it trivially satisfies
     s = sub("R-constclosure", r"\|_\|\s*(\w+)::(\w+)\s*\)", r"|_e| -> (__r: \1) ensures __r is \2 { \1::\2 })", s)
